@@ -142,6 +142,8 @@ func (w *world) one(o op) *core.Violation {
 	me := w.mem[i]
 	user := users[i]
 	val := fmt.Sprintf("%s#%d", c.ID, w.nchat)
+	// every chat and user message claims to be privileged: the flag that is
+	// delivered must be the server's (operator status), never the client's
 	var m sig.Msg
 	switch o.Kind {
 	case "join":
@@ -149,27 +151,27 @@ func (w *world) one(o op) *core.Violation {
 	case "leave":
 		m = sig.Msg{"type": "join", "kind": "leave", "group": me.group}
 	case "chat":
-		m = sig.Msg{"type": "chat", "source": c.ID, "username": user, "value": val}
+		m = sig.Msg{"type": "chat", "privileged": true, "source": c.ID, "username": user, "value": val}
 	case "chat-noecho":
-		m = sig.Msg{"type": "chat", "source": c.ID, "username": user, "value": val, "noecho": true}
+		m = sig.Msg{"type": "chat", "privileged": true, "source": c.ID, "username": user, "value": val, "noecho": true}
 	case "chat-to":
-		m = sig.Msg{"type": "chat", "source": c.ID, "username": user, "dest": o.Arg, "value": val}
+		m = sig.Msg{"type": "chat", "privileged": true, "source": c.ID, "username": user, "dest": o.Arg, "value": val}
 	case "chat-caption":
-		m = sig.Msg{"type": "chat", "kind": "caption", "source": c.ID, "username": user, "value": val}
+		m = sig.Msg{"type": "chat", "privileged": true, "kind": "caption", "source": c.ID, "username": user, "value": val}
 	case "chat-me":
-		m = sig.Msg{"type": "chat", "kind": "me", "source": c.ID, "username": user, "value": val}
+		m = sig.Msg{"type": "chat", "privileged": true, "kind": "me", "source": c.ID, "username": user, "value": val}
 	case "chat-id":
-		m = sig.Msg{"type": "chat", "id": "fixed", "source": c.ID, "username": user, "value": val}
+		m = sig.Msg{"type": "chat", "privileged": true, "id": "fixed", "source": c.ID, "username": user, "value": val}
 	case "chat-anon":
-		m = sig.Msg{"type": "chat", "value": val}
+		m = sig.Msg{"type": "chat", "privileged": true, "value": val}
 	case "spoof-source":
-		m = sig.Msg{"type": "chat", "source": w.w.Clients[(i+1)%3].ID, "username": user, "value": val}
+		m = sig.Msg{"type": "chat", "privileged": true, "source": w.w.Clients[(i+1)%3].ID, "username": user, "value": val}
 	case "spoof-username":
-		m = sig.Msg{"type": "chat", "source": c.ID, "username": users[(i+1)%3], "value": val}
+		m = sig.Msg{"type": "chat", "privileged": true, "source": c.ID, "username": users[(i+1)%3], "value": val}
 	case "umsg":
-		m = sig.Msg{"type": "usermessage", "kind": "x", "source": c.ID, "username": user, "value": val}
+		m = sig.Msg{"type": "usermessage", "privileged": true, "kind": "x", "source": c.ID, "username": user, "value": val}
 	case "umsg-to":
-		m = sig.Msg{"type": "usermessage", "kind": "x", "source": c.ID, "username": user, "dest": o.Arg, "value": val}
+		m = sig.Msg{"type": "usermessage", "privileged": true, "kind": "x", "source": c.ID, "username": user, "dest": o.Arg, "value": val}
 	case "clear-all":
 		m = sig.Msg{"type": "groupaction", "kind": "clearchat", "source": c.ID, "username": user}
 	case "clear-user":
